@@ -58,6 +58,18 @@ def plan(order, oc, text, prefix):
     return verdicts, expected, cur, rejected
 
 
+_TRACE_DIR = []
+
+
+def _tracing_yaml():
+    """`tracing.enabled` with the shipped FileSystem adapter writing into a scratch directory"""
+    import atexit, shutil, tempfile
+    if not _TRACE_DIR:
+        _TRACE_DIR.append(tempfile.mkdtemp(prefix="vf_c16_trace_"))
+        atexit.register(shutil.rmtree, _TRACE_DIR[0], True)
+    return f"tracing:\n  enabled: True\n  adapters:\n    - name: FileSystem\n      filepath: {_TRACE_DIR[0]}/trace.jsonl\n"
+
+
 def v1_rail_variable_refusal(name):
     """an input rail that refuses with a message taken from a variable (not a predefined bot message)"""
     return f"""
@@ -155,11 +167,12 @@ def explore(task):
         return out
     dialog_world, subsets = task[:2]
     variable_refusal = len(task) > 2 and task[2] == "variable-refusal"
+    tracing = len(task) > 2 and task[2] == "tracing"
     res = {"evaluations": 0, "rails_only_cases": 0, "blocked_cases": 0, "rewritten_cases": 0, "viol": []}
     world = rw.World(
         "".join((v1_rail_variable_refusal(r) if variable_refusal else rw.v1_rail(r, "input")) for r in IN_ORDER) + "".join(rw.v1_rail(r, "output") for r in OUT_ORDER)
         + (rw.V1_DIALOG if dialog_world else "") + RET,
-        "rails:\n  input:\n    flows: [in1, in2]\n  output:\n    flows: [out1, out2]\n" + RET_YAML,
+        "rails:\n  input:\n    flows: [in1, in2]\n  output:\n    flows: [out1, out2]\n" + RET_YAML + (_tracing_yaml() if tracing else ""),
     )
     outs_in, outs_out = outcomes(IN_ORDER, with_none=False), outcomes(OUT_ORDER, with_none=False)
     n = [0]
@@ -186,6 +199,8 @@ def explore(task):
                     continue  # the text the library itself uses as an in-band command, accepted by every rail, rails-only calls
                 if variable_refusal and (form != "list" or first or tk == "hostile" or not in_oc or "R" not in in_oc or (out_oc and out_oc != ("A", "A"))):
                     continue  # this world only adds the blocked cases: the refusal text is then checked by the output rails
+                if tracing and (form != "list" or first or tk != "plain" or (in_oc and "W" in in_oc) or (out_oc and "W" in out_oc)):
+                    continue  # the tracing world repeats the plain list-form cases (accept / reject): the same reply and log are due
                 if form == "object" and (tk != "plain" or (in_oc and "W" in in_oc) or (out_oc and "W" in out_oc and in_oc and in_oc != ("A", "A"))):
                     continue  # object form: plain text, reduced verdict vectors
                 if "output" in sel and "dialog" not in sel and not supplied:
@@ -251,7 +266,7 @@ def explore(task):
                 key = "+".join(c for c in CATS if c in sel) or "none"
 
                 def bad(sig, what):
-                    res["viol"].append((f"{sig}:{key}" + (f":after-{first}" if first else "") + (":refusal-from-variable" if variable_refusal else "")
+                    res["viol"].append((f"{sig}:{key}" + (f":after-{first}" if first else "") + (":refusal-from-variable" if variable_refusal else "") + (":tracing-enabled" if tracing else "")
                                         + (":text-is-the-in-band-remove-marker" if tk == "marker" else ""), what, info))
 
                 if turn.exc is not None:
@@ -354,6 +369,7 @@ def run(rep, tier):
     # the pool hands tasks out in order: the selections with the largest verdict tables (input and output rails, no dialog) first
     ts.sort(key=lambda t: (-(("input" in t[1][0]) + ("output" in t[1][0])), "dialog" in t[1][0]))
     ts.append((False, [x for x in subs if "input" in x], "variable-refusal"))
+    ts.append((False, [x for x in subs if "dialog" not in x], "tracing"))   # configuration with tracing.enabled: same replies and logs
     ts.append(("same-rail-twice",))
     seed = int(os.environ.get("VERIF_SEED", 0) or 0)
     conc = c16_conc.tasks(tier, seed)
